@@ -122,6 +122,9 @@ void run(const Case &c, const char *mode)   // mode: "jc" "ji" "s"
     LogMessage m(TYPES[c.type], ctx, c.msg);
     for (auto &a : c.attrs) m.setAttribute(a.first, a.second.v);
     if (!c.preFmt.isNull()) m.setFormattedMessage(c.preFmt);
+    // the message is formatted LATER than it was created (it waited in the queue of the logger thread): 2.5 s, across a minute and across
+    // midnight for every third case. Whatever the formatter reports as the time of the event is the message's time, not the clock's
+    vdev::nowMs = c.timeMs + ((sum.cases % 3) == 0 ? 2500 : (sum.cases % 3) == 1 ? 61000 : 86400000LL + 1500);
     QString out = g_fmtOverride ? g_fmtOverride->format(m) : mode[0] == 's' ? (c.fmt ? c.fmt : fSentry)->format(m) : (mode[1] == 'c' ? fCompact : fIndent)->format(m);
     sum.cases++; sum.transitions++;
     sum.counters[std::string("cases_") + mode]++;
